@@ -403,9 +403,16 @@ impl Wallet {
                         //
                         // normal input → add back
                         //
-                        if input.amount > 0 && input.public_key == self.public_key {
+                        // the slip goes back under its own coordinates (the block and
+                        // transaction that created it), not under those of the block that
+                        // spent it: generate_slips rebuilds the input, remove_old_slips and
+                        // the rebroadcast margin age it, from these fields
+                        if input.amount > 0
+                            && input.public_key == self.public_key
+                            && input.block_id > 0
+                        {
                             wallet_changed |= WALLET_UPDATED;
-                            self.add_slip(block.id, tx_index, input, true, None);
+                            self.add_slip(input.block_id, input.tx_ordinal, input, true, None);
                         }
                         i += 1;
                     }
